@@ -1,5 +1,5 @@
 import TxdbusModel.Proofs.Proto.FdsSender
-import TxdbusModel.Proofs.Proto.FdsHandoff
+import TxdbusModel.Properties.C04
 import TxdbusModel.Gen.FdsRules
 import TxdbusModel.Proofs.Proto.FdsMsg
 import TxdbusModel.Proofs.Msg.Tables
@@ -10,6 +10,13 @@ Code model: Proto/Fds.lean (sender: `marshalBV` = `marshal_unix_fd` over a body 
 the `unix_fds` rule of `_marshal`, `sendMessage`, `callRemote`; receiver: `recvEv` =
 `fileDescriptorReceived` / `dataReceived` + `rawDBusMessageReceived`, on top of the framing model of
 C04).  Environment model: `Consistent ms evs` (Proto/Fds.lean) - what a stream socket may do.
+
+Extension 2026-09-30 (section "C20 composed with C03" below, namespace `Txdbus.Proto.FdsE2E`): the abstract
+parser `info` instantiated with C03's `parseMessage` model (`infoOfParse`), `info_of_constructed` (what it finds in
+a constructed message is what the sender model wrote), `descriptors_end_to_end` (+ `_sender`, `_after_handshake`):
+constructed messages, any interleaving of the environment model, C04 framing + C03 parse + the queue discipline:
+every message gets exactly its descriptors, C03's parse with C01's codec on the real queue returns the message sent,
+nothing is left queued.
 
 Definitions used in the statements (Proofs/Proto/FdsLemmas.lean, FdsRun.lean):
 `MsgOK info m` - the abstract parser finds in `m.raw` the index values `m.idx`, a `unix_fds` header equal
@@ -134,7 +141,7 @@ theorem attribution_after_handshake (A : Auth α) (info : Bytes → MsgInfo) (ms
     rw [flatten_readsOf, bytesOf_append]; simpa [bytesOf] using hH
   have hne : readsOf (evsA ++ [.read d1]) ≠ [] := by
     rw [readsOf_append]; simp [readsOf]
-  have hho := handoff_c20 A s hs last [] (readsOf (evsA ++ [.read d1])) a1 a' hr ha hbuf hcl hnext hlines hrun hlast
+  have hho := handoff A s hs last [] (readsOf (evsA ++ [.read d1])) a1 a' hr ha hbuf hcl hnext hlines hrun hlast
     hne hreads
   have hq := recvRun_quiet A info s [] (evsA ++ [.read d1]) (by rw [hho.2.1, frames_nil])
   -- the binary part, the descriptors of the handshake phase already queued
@@ -274,20 +281,20 @@ example : Consistent [⟨tinyMsg16, [5], [0]⟩] [.fd 5, .read tinyMsg16] ∧
 
 /-- `attribution_after_handshake`: handshake `BEGIN\r\n`, the descriptor arrives before the single read
 that holds the handshake line and the message -/
-example : bytesOf [Ev.fd 5] ++ (beginLineC20 ++ [13, 10]) = Spec.unlines ([] ++ [beginLineC20]) ∧
-    ConsistentAfter (Spec.unlines ([] ++ [beginLineC20])).length [⟨tinyMsg16, [5], [0]⟩]
-      ([Ev.fd 5] ++ Ev.read ((beginLineC20 ++ [13, 10]) ++ tinyMsg16) :: []) := by
+example : bytesOf [Ev.fd 5] ++ (beginLine ++ [13, 10]) = Spec.unlines ([] ++ [beginLine]) ∧
+    ConsistentAfter (Spec.unlines ([] ++ [beginLine])).length [⟨tinyMsg16, [5], [0]⟩]
+      ([Ev.fd 5] ++ Ev.read ((beginLine ++ [13, 10]) ++ tinyMsg16) :: []) := by
   refine ⟨by decide, by decide, by decide, ?_⟩
   intro p hp k hk hle
   have hk' : k = 0 ∨ k = 1 := by simp at hk; omega
   rcases hk' with rfl | rfl
   · simp [fdsUpTo]
   · rcases p with _ | ⟨e1, _ | ⟨e2, _ | ⟨e3, p⟩⟩⟩
-    · simp [bytesOf, bytesUpTo, tinyMsg16, Spec.unlines, beginLineC20] at hle
+    · simp [bytesOf, bytesUpTo, tinyMsg16, Spec.unlines, beginLine] at hle
     · obtain ⟨t, ht⟩ := hp
       simp at ht
       obtain ⟨rfl, _⟩ := ht
-      simp [bytesOf, bytesUpTo, tinyMsg16, Spec.unlines, beginLineC20] at hle
+      simp [bytesOf, bytesUpTo, tinyMsg16, Spec.unlines, beginLine] at hle
     · obtain ⟨t, ht⟩ := hp
       simp at ht
       obtain ⟨rfl, rfl, _⟩ := ht
@@ -308,7 +315,7 @@ example : Spec.WellFormed tinyMsg16 ∧
 Model: Proto/FdsMsg.lean (`infoOfParse`, `parsedDelivery`, `oobAfter`, `sendConstructed`, `bvOfFields`);
 lemmas: Proofs/Proto/FdsMsg.lean (`SentFd`, `SentFdOK`, `ParsedFrom`, `info_of_sent`, `parsedAs_of_sent`, ...). -/
 
-section Composed
+namespace FdsE2E
 open Txdbus.Code
 open Txdbus.Msg (Tables BodyCodec Call construct parseMessage wireCodec)
 
@@ -367,6 +374,10 @@ queue, then `queue[unix_fds:]`), fresh in binary mode.  Then:
   and C03's `parseMessage` with C01's code model as body codec, run on that very queue (the code's call
   `parseMessage(raw, self._receivedFDs)`), returns the message that was sent: class, serial, flags, header
   attributes, and the body `Code.plainList x.items` with the sender's descriptors at the `h` positions;
+  and C04's model of the whole of `rawDBusMessageReceived` (`Receive.handleFrame`, Proto/Receive.lean: that parse,
+  `self._receivedFDs[m.unix_fds:]`, the `if mt == 1 … elif mt == 4` chain), run on that queue, hands that message to
+  the hook of its type and leaves exactly the queue `deliver` computed (`queueAfter`): the abstract `info` / `deliver`
+  pair of Proto/Fds.lean and the literal model agree on every delivery;
 * (the same in one equation) `(raw, args)` of the deliveries = `(x.msg.raw, x.ds.map some)` of the first messages;
 * every complete message was delivered; the final queue holds exactly the descriptors of undelivered messages;
 * when all bytes have arrived: every message was delivered, nothing is buffered, NO descriptor is left queued.
@@ -665,7 +676,7 @@ example :
   · rw [i2]; simp [SentFd.body, bvOfFields, callRemote, marshalMsg, marshalBVs]
 
 
-end Composed
+end FdsE2E
 
 end Txdbus.Proto
 
@@ -689,15 +700,15 @@ open Txdbus.Proto in
 #print axioms model_rules_match_source
 open Txdbus.Proto in
 #print axioms index_beyond_declared_reaches_later_message
-open Txdbus.Proto in
+open Txdbus.Proto.FdsE2E in
 #print axioms info_of_constructed
-open Txdbus.Proto in
+open Txdbus.Proto.FdsE2E in
 #print axioms descriptors_end_to_end
-open Txdbus.Proto in
+open Txdbus.Proto.FdsE2E in
 #print axioms sender_sends_constructed
-open Txdbus.Proto in
+open Txdbus.Proto.FdsE2E in
 #print axioms senderEvs_consistent
-open Txdbus.Proto in
+open Txdbus.Proto.FdsE2E in
 #print axioms descriptors_end_to_end_sender
-open Txdbus.Proto in
+open Txdbus.Proto.FdsE2E in
 #print axioms descriptors_end_to_end_after_handshake
